@@ -61,7 +61,7 @@ def run(pid, tier, args):
             g["structure"] = True
             g["userprods"] = []
         # hand-written Go types (anonymous / embedded structs): structure-independent clauses only
-        for sid in ("static-embedded", "static-anon-two", "static-anon-rec", "static-alias", "static-unicode-names", "static-parseable-twice"):
+        for sid in ("static-embedded", "static-anon-two", "static-anon-rec", "static-alias", "static-unicode-names", "static-parseable-twice", "static-embedded-3", "static-forproduction"):
             gs.append({"id": sid, "structure": False, "root": "", "prods": [], "unions": {}, "userprods": ["EsAmount"] if sid == "static-parseable-twice" else []})
         src = os.path.join(wd, "harness-src")
         codegen.emit([g for g in gs if g["structure"]], os.path.join(src, "gengram", "gen.go"))
